@@ -77,7 +77,7 @@ theorem Just.addFile {h : Host} {cfg : Cfg} {st : Plan} (j : Just h cfg st) (d p
 /-- what the caller of each call guarantees -/
 def CallJust (h : Host) (cfg : Cfg) : Call → Prop
   | .mount dest src _ _ => InOut cfg src → Shows h cfg dest src ∧ Canon h cfg src
-  | .below _ src ms => ¬ ProperPrefix src cfg.ctrOut ∧ ∀ e ∈ ms, e ∈ cfg.mounts
+  | .below _ src _ ms => ¬ ProperPrefix src cfg.ctrOut ∧ ∀ e ∈ ms, e ∈ cfg.mounts
   | .host dest src _ _ => Shows h cfg dest src ∧ Canon h cfg src
   | .children dest src _ names =>
     Shows h cfg dest src ∧ Canon h cfg src ∧ nodeAt h cfg src = some .dir ∧
@@ -148,7 +148,7 @@ theorem scan_sound_walk (h : Host) (cfg : Cfg) (hwf : HostWF h) (wf : CfgWF h cf
           obtain ⟨hmem, hpre, hlen⟩ := srcMount_mem cfg src (root, m) hsm
           simp only at hw
           have hcont : ∀ s1 : Plan, Just h cfg s1 →
-              (if below = true then walk h cfg fuel (.below dest src cfg.mounts) s1 else .ok s1) = .ok st' →
+              (if below = true then walk h cfg fuel (.below dest src n cfg.mounts) s1 else .ok s1) = .ok st' →
               Just h cfg st' := by
             intro s1 hj1 hc
             split at hc
@@ -181,14 +181,14 @@ theorem scan_sound_walk (h : Host) (cfg : Cfg) (hwf : HostWF h) (wf : CfgWF h cf
                     rw [hc] at hw
                     exact hcont _ (hj.addFrags _) hw
                 · cases hw
-    | below dest src ms =>
+    | below dest src n ms =>
       cases ms with
       | nil => rw [walk] at hw; cases hw; exact hj
       | cons e ms =>
         obtain ⟨mnt, m⟩ := e
         obtain ⟨hpp, hsub⟩ := hcj
         rw [walk] at hw
-        have hrest : CallJust h cfg (.below dest src ms) :=
+        have hrest : CallJust h cfg (.below dest src n ms) :=
           ⟨hpp, fun e he => hsub e (List.mem_cons_of_mem _ he)⟩
         split at hw
         · rename_i hc
